@@ -73,13 +73,19 @@ class PCTPolicy:
 
 
 class BoundedPolicy:
-    """Exactly k forced pre-emptions at seeded steps; otherwise run to block/finish."""
+    """Exactly k forced pre-emptions at seeded steps; otherwise run to block/finish.
+    handoff: when a lock release wakes a waiting thread, that thread runs next."""
 
-    def __init__(self, seed, k, horizon):
+    def __init__(self, seed, k, horizon, handoff=False):
         self.rng = random.Random(seed)
         self.points = set(self.rng.randint(1, max(1, horizon)) for _ in range(k))
+        self.handoff = handoff
 
     def choose(self, sched, runnable, cur, forced):
+        if self.handoff and not forced and sched.woken:
+            w = [t for t in sched.woken if t in runnable and t != cur]
+            if w:
+                return w[0]
         if forced:
             return runnable[self.rng.randrange(len(runnable))] if len(runnable) > 1 else runnable[0]
         if sched.step in self.points and len(runnable) > 1:
@@ -92,14 +98,19 @@ class ExplicitPolicy:
     """Replay / minimisation: switches = [[step, tid], ...]; otherwise keep running;
     at a forced decision without a directive pick the lowest runnable tid."""
 
-    def __init__(self, switches, first=None):
+    def __init__(self, switches, first=None, handoff=False):
         self.at = {int(s): int(t) for s, t in switches}
         self.first = first
+        self.handoff = handoff
 
     def choose(self, sched, runnable, cur, forced):
         t = self.at.get(sched.step)
         if t is not None and t in runnable:
             return t
+        if self.handoff and not forced and sched.woken:
+            w = [x for x in sched.woken if x in runnable and x != cur]
+            if w:
+                return w[0]
         if forced:
             return runnable[0]
         return cur
@@ -112,11 +123,11 @@ def make_policy(spec, nthreads):
     if kind == 'pct':
         return PCTPolicy(spec['seed'], nthreads, spec['d'], spec['horizon'])
     if kind == 'bounded':
-        return BoundedPolicy(spec['seed'], spec['k'], spec['horizon'])
+        return BoundedPolicy(spec['seed'], spec['k'], spec['horizon'], spec.get('handoff', False))
     if kind == 'sequential':
         return RandomPolicy(spec['seed'], 0.0)
     if kind == 'explicit':
-        return ExplicitPolicy(spec['switches'])
+        return ExplicitPolicy(spec['switches'], handoff=spec.get('handoff', False))
     raise ValueError(kind)
 
 
@@ -134,6 +145,8 @@ class Scheduler:
         self.abort_reason = None
         self.main_gate = threading.Semaphore(0)
         self.contended = 0
+        self.locks = []             # every simulated lock created for this run
+        self.woken = []             # tids made runnable by the lock release being yielded at
         self.switch_in_traced = 0   # switches taken at an opcode inside the traced files
         self.where = None
 
@@ -267,6 +280,9 @@ class SimRLock:
         self.owner = None
         self.count = 0
         self.acquisitions = 0
+        locks = getattr(sched, 'locks', None)
+        if locks is not None:
+            locks.append(self)
 
     def acquire(self, blocking=True, timeout=-1):
         s = self.sched
@@ -303,12 +319,18 @@ class SimRLock:
         if self.owner is not s.cur:
             raise RuntimeError('cannot release un-acquired lock')
         self.count -= 1
+        woken = []
         if self.count == 0:
             self.owner = None
             for t in s.threads:
                 if t.blocked_on is self:
                     t.blocked_on = None
-        s.yield_point(('lock', 'release'))
+                    woken.append(t.tid)
+        s.woken = woken
+        try:
+            s.yield_point(('lock', 'release'))
+        finally:
+            s.woken = []
 
     __enter__ = acquire
 
